@@ -21,9 +21,9 @@ RULE = (
     "or both diagrams are non-empty and different."
 )
 ASSUMPTIONS = [
-    "tolerance 1e-10 x coordinate scale x number of points (double precision throughout)",
+    "tolerance 256 ulp x coordinate scale x number of points (double precision throughout)",
 ]
-RT = 1e-10
+RT = 256 * 2.220446049250313e-16      # a few hundred ulps of the largest coordinate, per point
 
 
 def bounds(tier):
@@ -122,7 +122,7 @@ def _pair(ctx, A, B):
         if vd is not None and abs(vd - v) > 2 * tol_of(A2, B2):
             ctx.violation("diagonal-points", "points on the diagonal change the value", observed=vd, expected=v, extra={"P1": A2, "P2": B2, "M": M})
         # translation along the diagonal, also into negative coordinates
-        for c in (-5.0, 3.25, 100.0):
+        for c in (-5.0, 3.25, 100.0, 1048576.0, -4194304.0 + 1.0 / 3.0):
             A3, B3 = aff(A, 1.0, c), aff(B, 1.0, c)
             vs = check_val(ctx, "value-shift", sw(ctx, A3, B3, M), A3, B3, M, "shift %r" % c)
             ctx.valid()
